@@ -991,6 +991,12 @@ func (h *harness) clientOp(actor string, op simkit.Op) {
 		done(err)
 	case "pause":
 		err := mgr.Pause(ctx, h.sel, "")
+		if err != nil && strings.Contains(err.Error(), "unable to save session") {
+			// The disk refused the save (an injected failure): the user tries
+			// again, as one would.
+			s.Count("probe.pause_retried_after_failed_save", 1)
+			err = mgr.Pause(ctx, h.sel, "")
+		}
 		h.mu.Lock()
 		busy := h.inflightEP["alpha"] + h.inflightEP["beta"]
 		if err == nil {
